@@ -424,12 +424,15 @@ def _fuzz_jobs(ctx, kinds_all):
             add("cli" if i % 18 else "climember", kind, src, **kw)
 
     # ---- open findings KF-C01-01..03: one deterministic witness each, FIRST (each costs one worker its CPU budget)
-    add("direct", "doc", {"seed": M.SEEDS["doc"][0], "muts": [["olevec", 0x7FFFFFFF]]})
-    add("direct", "pdf", {"seed": M.SEEDS["plain"][0], "muts": [["const", "pdfprev"]]}, foreign=True)
-    add("direct", "pdf", {"seed": M.SEEDS["plain"][0], "muts": [["const", "pdfparent"]]}, foreign=True)
+    wb = 8.0                      # CPU budget of a known witness (it never comes back; a repaired one returns at once)
+    add("direct", "doc", {"seed": M.SEEDS["doc"][0], "muts": [["olevec", 0x7FFFFFFF]]}, cpu_budget=wb)
+    add("direct", "pdf", {"seed": M.SEEDS["plain"][0], "muts": [["const", "pdfprev"]]}, foreign=True, cpu_budget=wb)
+    add("direct", "pdf", {"seed": M.SEEDS["plain"][0], "muts": [["const", "pdfparent"]]}, foreign=True, cpu_budget=wb)
     if T:
-        add("cli", "pdf", {"seed": M.SEEDS["plain"][0], "muts": [["const", "pdfparent"]]}, foreign=True, cli_mode="text")
-        add("member", "doc", {"seed": M.SEEDS["doc"][0], "muts": [["olevec", 0x7FFFFFFF]]}, members=1, arch="zip")
+        add("cli", "pdf", {"seed": M.SEEDS["plain"][0], "muts": [["const", "pdfparent"]]}, foreign=True, cli_mode="text",
+            cpu_budget=wb)
+        add("member", "doc", {"seed": M.SEEDS["doc"][0], "muts": [["olevec", 0x7FFFFFFF]]}, members=1, arch="zip",
+            cpu_budget=wb)
     per_seed = 150 if T else 5
     for kind in kinds_all:
         seeds = M.SEEDS[kind] if T else M.SEEDS[kind][:2]
@@ -645,7 +648,7 @@ def run(ctx):
             continue
         if asbuilt.get(t["id"]):
             v.known(asbuilt[t["id"]], f"[{m['desc'].get('entry')}/{m['desc'].get('kind')}] input {m['desc'].get('src')} killed on its "
-                                 f"CPU budget; OLE property-set evidence {m['res'].get('dom')}", m["desc"])
+                                 f"CPU budget; input-structure evidence {m['res'].get('dom')}", m["desc"])
             continue
         evs = t["ev"]
         r = m["res"]
